@@ -242,6 +242,10 @@ def run_one(choices, params):
                 ca.poll_all(0)
                 sim.sleep(0.001)
             check_ledger(ledger)
+            for nm, conn in (("A", ca), ("B", cb)):
+                if conn._request_callbacks:
+                    raise core.Violation("callback-left", "%s: every request was answered but %d callbacks are still registered "
+                                         "(seqs %r)" % (nm, len(conn._request_callbacks), sorted(conn._request_callbacks)[:5]))
             ca.close()
             sim.block(lambda: srv.state == core.DONE, 5, "wait-srv")
             return True
